@@ -121,6 +121,14 @@ class Check:
         except Exception:
             pass
         args = ["go", "build", "-tags", tags, "-o", out]
+        repo = os.environ.get("VERIF_REPO", "/repo")
+        if repo != "/repo":
+            # evaluate another checkout (e.g. a scratch worktree with a seeded change) without touching /repo
+            mf = os.path.join(self.tmp, "alt.mod")
+            with open(mf, "w") as f:
+                f.write(open(os.path.join(HARNESS, "go.mod")).read().replace("=> /repo", "=> " + repo))
+            shutil.copy(os.path.join(repo, "go.sum"), os.path.join(self.tmp, "alt.sum"))
+            args += ["-modfile", mf]
         if race:
             args.append("-race")
         args.append("./cmd/" + cmd)
@@ -145,7 +153,17 @@ class Check:
         for line in p.stdout.splitlines():
             if line.startswith("SUMMARY "):
                 summ = json.loads(line[8:])
-        if p.returncode not in allow_rc or summ is None:
+        if summ is None and os.path.exists(trace) and os.path.getsize(trace) > 0:
+            # the driver died: if the code under test crashed it (panic / fatal error with go-ipfix frames on the
+            # stack), that is behaviour of the real code: it becomes a Crash event at the end of the recorded trace
+            err = open(errp, errors="replace").read()
+            m = re.search(r"^(panic: .*|fatal error: .*)$", err, flags=re.M)
+            if m and "github.com/vmware/go-ipfix/pkg/" in err[m.start():m.start() + 6000]:
+                append_monitor_events(trace, [{"e": "Crash", "detail": m.group(1)[:200]}])
+                n = sum(1 for _ in open(trace))
+                summ = {"events": n, "traces": 0, "evaluations": n, "distinct_nontrivial": 0, "crashed": True}
+                log("driver crashed inside go-ipfix: " + m.group(1)[:160])
+        if summ is None or (p.returncode not in allow_rc and not summ.get("crashed")):
             err = open(errp).read()
             raise Machinery("driver %s died (rc=%s) without a summary:\n%s\n%s" % (os.path.basename(binary), p.returncode, tail(p.stdout, 10), tail(err, 40)))
         summ["stderr_path"] = errp
